@@ -234,6 +234,7 @@ type symExec struct {
 	params          map[types.Object]string
 	overflow        bool
 	inlineMemo      map[*types.Func]bool
+	assignCounts    map[types.Object]int
 	inlineAll       bool
 	primitive       map[*types.Func]bool // never inlined: recorded as events
 	noRet           map[*types.Func]int  // 1 = never returns (every path panics), 2 = returns
@@ -647,7 +648,78 @@ func (se *symExec) execAssign(x *ast.AssignStmt, st *sstate) []*sstate {
 		}
 		out = append(out, a.st)
 	}
+	// `locals := vm.frame.Locals`: a local of map or pointer type, assigned once, from a plain access path,
+	// is that path under another name and is rendered as the path
+	if x.Tok == token.DEFINE && len(x.Lhs) == len(x.Rhs) {
+		for i, l := range x.Lhs {
+			id := identOf(l)
+			if id == nil || id.Name == "_" {
+				continue
+			}
+			obj := se.info.Defs[id]
+			if obj == nil || se.assignCount(obj) != 1 || !isPurePath(x.Rhs[i]) {
+				continue
+			}
+			if _, isId := unparen(x.Rhs[i]).(*ast.Ident); isId {
+				continue // x := y is left alone (y may be reassigned)
+			}
+			switch obj.Type().Underlying().(type) {
+			case *types.Map, *types.Pointer:
+				if _, taken := se.params[obj]; !taken {
+					se.params[obj] = se.canon(x.Rhs[i])
+				}
+			}
+		}
+	}
 	return out
+}
+
+func isPurePath(e ast.Expr) bool {
+	switch x := unparen(e).(type) {
+	case *ast.Ident:
+		return x.Name != "_" && x.Name != "nil"
+	case *ast.SelectorExpr:
+		return isPurePath(x.X)
+	}
+	return false
+}
+
+// assignCount: how often the object is assigned (or has its address taken) anywhere in its package.
+func (se *symExec) assignCount(obj types.Object) int {
+	if se.assignCounts == nil {
+		se.assignCounts = map[types.Object]int{}
+		note := func(e ast.Expr) {
+			if id := identOf(e); id != nil {
+				if o := se.info.Defs[id]; o != nil {
+					se.assignCounts[o]++
+				} else if o := se.info.Uses[id]; o != nil {
+					se.assignCounts[o]++
+				}
+			}
+		}
+		for _, f := range se.c.Files(se.p) {
+			ast.Inspect(f, func(n ast.Node) bool {
+				switch y := n.(type) {
+				case *ast.AssignStmt:
+					for _, l := range y.Lhs {
+						note(l)
+					}
+				case *ast.IncDecStmt:
+					note(y.X)
+				case *ast.RangeStmt:
+					note(y.Key)
+					note(y.Value)
+				case *ast.UnaryExpr:
+					if y.Op == token.AND {
+						note(y.X)
+						note(y.X)
+					}
+				}
+				return true
+			})
+		}
+	}
+	return se.assignCounts[obj]
 }
 
 // canon renders an expression with the handler's parameter names normalised.
@@ -2092,16 +2164,7 @@ func (se *symExec) inline(fn *types.Func, fd *ast.FuncDecl, recv *val, args []va
 	for _, o := range se.assignedIn(fd.Body) {
 		assigned[o] = true
 	}
-	var purePath func(e ast.Expr) bool
-	purePath = func(e ast.Expr) bool {
-		switch x := unparen(e).(type) {
-		case *ast.Ident:
-			return x.Name != "_" && x.Name != "nil"
-		case *ast.SelectorExpr:
-			return purePath(x.X)
-		}
-		return false
-	}
+	purePath := isPurePath
 	alias := func(id *ast.Ident, arg ast.Expr) {
 		obj := se.info.Defs[id]
 		if obj == nil || assigned[obj] || arg == nil || !purePath(arg) {
